@@ -14,7 +14,7 @@ these two codes; `rtu_req_len_defect` pins what the function does there, and
 `rtu_req_len_defect_witness` is a buffer on which that differs from the specification.
 -/
 namespace Modbus.C15
-open Spec
+open Spec Modbus.Predict
 
 /-- a specified prediction as a model result (a rejected code is reported as error `e`) -/
 def ofPred (e : Error) : Pred → Res (Option Nat)
